@@ -254,36 +254,78 @@ def run(run):
 # =====================================================================================================
 # tier C: bounded run-time oracles on the real functions (concrete replays; never counted as proved)
 # =====================================================================================================
+# Dimensions varied by the fold oracle (C05/folds) besides sizes / groupings / k / shuffle seeds:
+#   container : rdm / pattern descriptors held as list, numpy array or tuple
+#   labels    : group labels as int, str (sorted order != numeric order), float, negative / non-contiguous ints; descending
+#               and interleaved label order (first-appearance order != sorted order); unbalanced group sizes
+#   desc      : 'default' -- the generators are called WITHOUT descriptor arguments (grouping by the 'index' descriptor)
+#   k=None    : the default number of folds (docstrings: the default ks lie in 2..5, i.e. both factors are cross-validated)
+#   dtype     : dissimilarities typed int16 / int32 / float32 (selections only move values around: same values expected)
+#   scale     : dissimilarities in extreme units (x 1e-20, x 1e+10);   nan: missing (NaN) entries travel with their pair
+#   seq       : call sequences -- a second data set of the same shape but other content and other grouping is processed
+#               between two identical calls: the held result of the first call must still be the advertised selection of
+#               the first source, the first source must be unchanged, and the repeated call (same inputs, same numpy seed)
+#               must give the identical folds
+#   C05/folds-hashseed: the folds (ordered, and shuffled under a fixed numpy seed) are the same in new interpreters started with
+#               other PYTHONHASHSEED values (str / int labels), and the property holds there as well
+# and by the non-interference oracles: repeated descriptor values (groups / copies) along both factors, shuffled folds, data
+# typed float32 / integer, extreme units, select / interpolate models with their default fitters, and (C05/noninterference-boot)
+# the bootstrap-wrapped cross-validation (bootstrap copies of conditions and RDMs, fold ids expanded to multiplicities).
 import itertools
 import numpy as np
 from vf.rt.harness import oracle, Bounded, replay_file, close
 
+_SPEC_KEYS = ('container', 'dtype', 'scale', 'nan', 'off')
 
-def _mk_rdms(n_rdm, n_cond, rgroups, pgroups, container='list'):
-    """RDMs with sentinel values: entry (r, a<b) = 1000*(r+1) + 30*a + b ; ids in descriptors (lists or numpy arrays)"""
+
+def _spec_of(case):
+    return {k: case[k] for k in _SPEC_KEYS if case.get(k) is not None}
+
+
+def _sent(r, a, b, spec=None):
+    """sentinel value of entry (rdm r, conditions a<b) under the typing / unit options of the case"""
+    spec = spec or {}
+    if spec.get('nan') and (r + a + b) % 4 == 0:
+        return float('nan')
+    v = spec.get('off', 0) + 1000.0 * (r + 1) + 30 * a + b
+    if spec.get('scale') is not None:
+        v = v * spec['scale']
+    if spec.get('dtype'):
+        v = float(np.array([v]).astype(spec['dtype'])[0])
+    return v
+
+
+def _mk_rdms(n_rdm, n_cond, rgroups, pgroups, container='list', spec=None):
+    """RDMs with sentinel values: entry (r, a<b) = 1000*(r+1) + 30*a + b ; ids in descriptors (lists, tuples or numpy arrays)"""
     from rsatoolbox.rdm import RDMs
+    spec = spec or {}
     vec = []
     for r in range(n_rdm):
-        vec.append([1000.0 * (r + 1) + 30 * a + b for a in range(n_cond) for b in range(a + 1, n_cond)])
-    c = np.array if container == 'array' else list
-    return RDMs(np.array(vec), rdm_descriptors={'rid': c(range(n_rdm)), 'rg': c(rgroups)},
+        vec.append([_sent(r, a, b, dict(spec, dtype=None)) for a in range(n_cond) for b in range(a + 1, n_cond)])
+    vec = np.array(vec)
+    if spec.get('dtype'):
+        vec = vec.astype(spec['dtype'])
+    container = spec.get('container', container)
+    c = np.array if container == 'array' else (tuple if container == 'tuple' else list)
+    return RDMs(vec, rdm_descriptors={'rid': c(range(n_rdm)), 'rg': c(rgroups)},
                 pattern_descriptors={'cid': c(range(n_cond)), 'pg': c(pgroups)})
 
 
-def _source_intact(rdms, n_rdm, n_cond, rg, pg):
+def _source_intact(rdms, n_rdm, n_cond, rg, pg, spec=None):
     """the generator must hand out selections of the source, not re-label the source itself"""
-    want = _mk_rdms(n_rdm, n_cond, rg, pg)
+    want = _mk_rdms(n_rdm, n_cond, rg, pg, spec=spec)
     for nm, a, b in (('rdm', rdms.rdm_descriptors, want.rdm_descriptors),
                      ('pattern', rdms.pattern_descriptors, want.pattern_descriptors)):
         for k in b:
-            if list(a[k]) != list(b[k]):
-                return f'the {nm} descriptor {k!r} of the SOURCE object was changed by the generator: {list(a[k])} (was {list(b[k])})'
-    if not np.array_equal(rdms.dissimilarities, want.dissimilarities):
+            if k not in a or list(a[k]) != list(b[k]):
+                return (f'the {nm} descriptor {k!r} of the SOURCE object was changed by the generator: '
+                        f'{list(a[k]) if k in a else None} (was {list(b[k])})')
+    if not np.array_equal(rdms.dissimilarities, want.dissimilarities, equal_nan=bool((spec or {}).get('nan'))):
         return 'the dissimilarities of the source object were changed by the generator'
     return None
 
 
-def _content_ok(obj, where):
+def _content_ok(obj, where, spec=None):
     """every entry of obj equals the sentinel of its own (rid, cid, cid) labels"""
     m = obj.get_matrices()
     rid = list(obj.rdm_descriptors['rid'])
@@ -294,14 +336,14 @@ def _content_ok(obj, where):
                 if a == b:
                     continue
                 lo, hi = min(cid[a], cid[b]), max(cid[a], cid[b])
-                want = 1000.0 * (rid[r] + 1) + 30 * lo + hi if lo != hi else float('nan')
+                want = _sent(rid[r], lo, hi, spec) if lo != hi else float('nan')
                 got = m[r, a, b]
                 if not (got == want or (np.isnan(got) and np.isnan(want))):
                     return f'{where}: entry rid={rid[r]} cid=({cid[a]},{cid[b]}) is {got}, source has {want}'
     return None
 
 
-def _expect_members(obj, rg_set, pg_set, src_rg, src_pg, where):
+def _expect_members(obj, rg_set, pg_set, src_rg, src_pg, where, spec=None):
     """obj contains exactly the RDMs with rg in rg_set and the conditions with pg in pg_set (all copies)"""
     want_r = sorted(i for i, g in enumerate(src_rg) if g in rg_set)
     want_c = sorted(i for i, g in enumerate(src_pg) if g in pg_set)
@@ -311,85 +353,103 @@ def _expect_members(obj, rg_set, pg_set, src_rg, src_pg, where):
         return f'{where}: RDM ids {got_r}, advertised groups {sorted(rg_set)} mean {want_r}'
     if got_c != want_c:
         return f'{where}: condition ids {got_c}, advertised groups {sorted(pg_set)} mean {want_c}'
-    return _content_ok(obj, where)
+    return _content_ok(obj, where, spec)
 
 
-@oracle('C05/folds')
-def orc_folds(case):
-    import rsatoolbox.inference.crossvalsets as cvs
-    n_rdm, n_cond = case['n_rdm'], case['n_cond']
-    rg, pg = case['rg'], case['pg']
-    rdms = _mk_rdms(n_rdm, n_cond, rg, pg, case.get('container', 'list'))
+def _call_gen(cvs, rdms, case):
+    """one call of the generator named by the case; -> (train, test, ceil, factors, exhaustive)"""
     gen = case['gen']
+    dflt = case.get('desc') == 'default'      # descriptor arguments left at their defaults: grouping by 'index'
+    k = case.get('k')
     np.random.seed(case.get('seed', 0))
-    all_rg, all_pg = set(rg), set(pg)
     exhaustive = True
     if gen == 'leave_one_out_pattern':
-        tr, te, ce = cvs.sets_leave_one_out_pattern(rdms, 'pg')
+        tr, te, ce = cvs.sets_leave_one_out_pattern(rdms, 'index' if dflt else 'pg')   # no default in the signature
         factors = ('p',)
     elif gen == 'leave_one_out_rdm':
-        tr, te, ce = cvs.sets_leave_one_out_rdm(rdms, 'rg')
+        tr, te, ce = cvs.sets_leave_one_out_rdm(rdms) if dflt else cvs.sets_leave_one_out_rdm(rdms, 'rg')
         factors = ('r',)
     elif gen == 'k_fold_pattern':
-        tr, te, ce = cvs.sets_k_fold_pattern(rdms, 'pg', k=case['k'], random=case['random'])
+        tr, te, ce = (cvs.sets_k_fold_pattern(rdms, k=k, random=case['random']) if dflt else
+                      cvs.sets_k_fold_pattern(rdms, 'pg', k=k, random=case['random']))
         factors = ('p',)
     elif gen == 'k_fold_rdm':
-        tr, te, ce = cvs.sets_k_fold_rdm(rdms, k_rdm=case['k'], random=case['random'], rdm_descriptor='rg')
+        tr, te, ce = (cvs.sets_k_fold_rdm(rdms, k_rdm=k, random=case['random']) if dflt else
+                      cvs.sets_k_fold_rdm(rdms, k_rdm=k, random=case['random'], rdm_descriptor='rg'))
         factors = ('r',)
     elif gen == 'of_k_pattern':
-        tr, te, ce = cvs.sets_of_k_pattern(rdms, 'pg', k=case['k'], random=case['random'])
+        kw = dict(random=case['random'], **({} if k is None else dict(k=k)))
+        tr, te, ce = cvs.sets_of_k_pattern(rdms, **kw) if dflt else cvs.sets_of_k_pattern(rdms, 'pg', **kw)
         factors = ('p',)
     elif gen == 'of_k_rdm':
-        tr, te, ce = cvs.sets_of_k_rdm(rdms, 'rg', k=case['k'], random=case['random'])
+        kw = dict(random=case['random'], **({} if k is None else dict(k=k)))
+        tr, te, ce = cvs.sets_of_k_rdm(rdms, **kw) if dflt else cvs.sets_of_k_rdm(rdms, 'rg', **kw)
         factors = ('r',)
     elif gen == 'k_fold':
-        tr, te, ce = cvs.sets_k_fold(rdms, k_rdm=case['k_rdm'], k_pattern=case['k'], random=case['random'],
-                                     pattern_descriptor='pg', rdm_descriptor='rg')
+        kw = {} if dflt else dict(pattern_descriptor='pg', rdm_descriptor='rg')
+        tr, te, ce = cvs.sets_k_fold(rdms, k_rdm=case['k_rdm'], k_pattern=k, random=case['random'], **kw)
         factors = ('r', 'p')
     elif gen == 'random':
-        tr, te, ce = cvs.sets_random(rdms, n_rdm=case['k_rdm'], n_pattern=case['k'], n_cv=case['n_cv'],
-                                     pattern_descriptor='pg', rdm_descriptor='rg')
+        kw = {} if dflt else dict(pattern_descriptor='pg', rdm_descriptor='rg')
+        tr, te, ce = cvs.sets_random(rdms, n_rdm=case['k_rdm'], n_pattern=k, n_cv=case['n_cv'], **kw)
         factors, exhaustive = ('r', 'p'), False
     else:
         raise ValueError(gen)
+    return tr, te, ce, factors, exhaustive
+
+
+def _check_sets(case, rdms, tr, te, ce, factors, exhaustive):
+    """all clauses of the fold part of the property for one returned (train, test, ceil) triple"""
+    n_rdm, n_cond = case['n_rdm'], case['n_cond']
+    rg, pg = case['rg'], case['pg']
+    gen = case['gen']
+    spec = _spec_of(case)
+    rname, pname = ('index', 'index') if case.get('desc') == 'default' else ('rg', 'pg')
+    all_rg, all_pg = set(rg), set(pg)
     if len(tr) != len(te):
         return f'{len(tr)} training sets but {len(te)} test sets'
-    msg = _source_intact(rdms, n_rdm, n_cond, rg, pg)
+    msg = _source_intact(rdms, n_rdm, n_cond, rg, pg, spec)
     if msg:
         return msg
     n_fold = len(te)
-    # is each factor actually cross-validated (more than one fold requested along it)?
+    # is each factor actually cross-validated (more than one fold requested along it)?  k = None: the default number of
+    # folds, documented to lie in 2..5 (for sets_random: a default test-set size > 0)
     cv_r = 'r' in factors
     cv_p = 'p' in factors
+    k, k_rdm = case.get('k'), case.get('k_rdm')
     if gen == 'k_fold':
-        cv_r, cv_p = case['k_rdm'] > 1, case['k'] > 1
+        cv_r, cv_p = k_rdm is None or k_rdm > 1, k is None or k > 1
     elif gen == 'random':
-        cv_r, cv_p = case['k_rdm'] > 0, case['k'] > 0
+        cv_r, cv_p = k_rdm is None or k_rdm > 0, k is None or k > 0
     elif gen == 'k_fold_pattern':
-        cv_p = case['k'] > 1
+        cv_p = k is None or k > 1
     elif gen == 'of_k_pattern':
-        cv_p = int(len(all_pg) / case['k']) > 1
+        cv_p = int(len(all_pg) / (5 if k is None else k)) > 1       # k = None: the default group size 5 of the signature
     elif gen == 'k_fold_rdm':
-        cv_r = case['k'] > 1
+        cv_r = k is None or k > 1
     elif gen == 'of_k_rdm':
-        cv_r = int(len(all_rg) / case['k']) > 1
+        cv_r = int(len(all_rg) / (5 if k is None else k)) > 1
     elif gen == 'leave_one_out_rdm':
         cv_r = len(all_rg) > 1
     elif gen == 'leave_one_out_pattern':
         cv_p = len(all_pg) > 1
+    if gen in ('k_fold_pattern', 'k_fold_rdm') and k is not None and n_fold != k:
+        return f'{n_fold} folds returned, {k} requested'
+    if gen == 'k_fold' and k is not None and k_rdm is not None and n_fold != k * k_rdm:
+        return f'{n_fold} folds returned, {k_rdm} x {k} requested'
     seen = {}
     sizes = []
     for f in range(n_fold):
         t_obj, r_obj = te[f][0], tr[f][0]
-        t_rg, r_rg = set(t_obj.rdm_descriptors['rg']), set(r_obj.rdm_descriptors['rg'])
-        t_pg, r_pg = set(t_obj.pattern_descriptors['pg']), set(r_obj.pattern_descriptors['pg'])
+        t_rg, r_rg = set(t_obj.rdm_descriptors[rname]), set(r_obj.rdm_descriptors[rname])
+        t_pg, r_pg = set(t_obj.pattern_descriptors[pname]), set(r_obj.pattern_descriptors[pname])
         if 'p' in factors:
             if set(te[f][1]) != t_pg:
                 return f'fold {f}: test index list {sorted(set(te[f][1]))} but test object holds groups {sorted(t_pg)}'
             if set(tr[f][1]) != r_pg:
                 return f'fold {f}: train index list {sorted(set(tr[f][1]))} but train object holds groups {sorted(r_pg)}'
         for nm, obj, rgs, pgs in (('test', t_obj, t_rg, t_pg), ('train', r_obj, r_rg, r_pg)):
-            msg = _expect_members(obj, rgs, pgs, rg, pg, f'fold {f} {nm}')
+            msg = _expect_members(obj, rgs, pgs, rg, pg, f'fold {f} {nm}', spec)
             if msg:
                 return msg
         if cv_r:
@@ -421,7 +481,7 @@ def orc_folds(case):
                 want_r, want_p = all_rg, t_pg
             else:
                 want_r, want_p = r_rg, t_pg
-            msg = _expect_members(c_obj, want_r, want_p, rg, pg, f'fold {f} ceil')
+            msg = _expect_members(c_obj, want_r, want_p, rg, pg, f'fold {f} ceil', spec)
             if msg:
                 return msg + ' (ceiling set must be the training RDMs at the test conditions)'
     if exhaustive:
@@ -436,6 +496,157 @@ def orc_folds(case):
     return None
 
 
+def _py(x):
+    return x.item() if isinstance(x, np.generic) else x
+
+
+def _summary(tr, te, ce):
+    """JSON-able description of a result: per fold the member ids, the index lists and the values handed out"""
+    out = []
+    for name, sets in (('train', tr), ('test', te), ('ceil', ce)):
+        if sets is None:
+            out.append([name, None])
+            continue
+        folds = []
+        for s in sets:
+            o = s[0]
+            folds.append([[_py(x) for x in o.rdm_descriptors['rid']], [_py(x) for x in o.pattern_descriptors['cid']],
+                          [_py(x) for x in s[1]],
+                          [[None if np.isnan(v) else float(v) for v in row] for row in np.atleast_2d(o.dissimilarities)]])
+        out.append([name, folds])
+    return out
+
+
+def _first_diff(a, b):
+    for (na, fa), (nb, fb) in zip(a, b):
+        if fa is None or fb is None:
+            if fa is not fb:
+                return f'{na} set: {"None" if fa is None else "a list"} vs {"None" if fb is None else "a list"}'
+            continue
+        if len(fa) != len(fb):
+            return f'{na} set: {len(fa)} vs {len(fb)} folds'
+        for f, (x, y) in enumerate(zip(fa, fb)):
+            for what, u, v in zip(('RDM ids', 'condition ids', 'index list', 'dissimilarities'), x, y):
+                if u != v:
+                    return f'{na} set, fold {f}, {what}: {str(u)[:120]} vs {str(v)[:120]}'
+    return None
+
+
+def _folds_eval(case):
+    """(failure message or None, summary of the folds) from ONE call of the generator"""
+    import rsatoolbox.inference.crossvalsets as cvs
+    rdms = _mk_rdms(case['n_rdm'], case['n_cond'], case['rg'], case['pg'], case.get('container', 'list'), _spec_of(case))
+    tr, te, ce, factors, exhaustive = _call_gen(cvs, rdms, case)
+    msg = _check_sets(case, rdms, tr, te, ce, factors, exhaustive)
+    return msg, (None if msg else _summary(tr, te, ce))
+
+
+@oracle('C05/folds')
+def orc_folds(case):
+    import rsatoolbox.inference.crossvalsets as cvs
+    n_rdm, n_cond = case['n_rdm'], case['n_cond']
+    rg, pg = case['rg'], case['pg']
+    spec = _spec_of(case)
+    rdms = _mk_rdms(n_rdm, n_cond, rg, pg, case.get('container', 'list'), spec)
+    tr, te, ce, factors, exhaustive = _call_gen(cvs, rdms, case)
+    msg = _check_sets(case, rdms, tr, te, ce, factors, exhaustive)
+    if msg or not case.get('seq'):
+        return msg
+    # ---- call sequence: other content of the same shape in between, then the first call again -----------------
+    first = _summary(tr, te, ce)
+    # seq = 'values': same labels, other dissimilarities (a cache keyed by shape / labels would serve stale selections);
+    # seq = 'regroup': other dissimilarities AND the grouping reversed
+    regroup = case['seq'] == 'regroup'
+    case2 = dict(case, rg=list(rg)[::-1] if regroup else rg, pg=list(pg)[::-1] if regroup else pg, off=500000,
+                 seed=case.get('seed', 0) + (1 if regroup else 0))
+    rdms2 = _mk_rdms(n_rdm, n_cond, case2['rg'], case2['pg'], case.get('container', 'list'), _spec_of(case2))
+    tr2, te2, ce2, _, _ = _call_gen(cvs, rdms2, case2)
+    msg = _check_sets(case2, rdms2, tr2, te2, ce2, factors, exhaustive)
+    if msg:
+        return (f"second data set of the same shape (other values, {'reversed grouping' if regroup else 'same labels'}), "
+                f'processed after the first: ' + msg)
+    msg = _check_sets(case, rdms, tr, te, ce, factors, exhaustive)
+    if msg:
+        return 'result of the FIRST call, re-inspected after the generator was called on another data set: ' + msg
+    d = _first_diff(first, _summary(tr, te, ce))
+    if d:
+        return 'the result held by the caller changed when the generator was called on another data set: ' + d
+    tr3, te3, ce3, _, _ = _call_gen(cvs, rdms, case)
+    msg = _check_sets(case, rdms, tr3, te3, ce3, factors, exhaustive)
+    if msg:
+        return 'repeated call on the first data set: ' + msg
+    d = _first_diff(first, _summary(tr3, te3, ce3))
+    if d:
+        return 'the same call (same data, same arguments, same numpy seed) gave different folds the second time: ' + d
+    d = _first_diff(first, _summary(tr, te, ce))
+    if d:
+        return 'the result held by the caller changed when the same call was repeated: ' + d
+    return None
+
+
+_HASHSEED_SCRIPT = ('import sys, json\n'
+                    'from contracts import C05\n'
+                    'cases = json.load(sys.stdin)\n'
+                    'out = []\n'
+                    'for c in cases:\n'
+                    '    out.append(list(C05._folds_eval(c)))\n'
+                    'sys.stdout.write("@@RESULT@@" + json.dumps(out))\n')
+
+
+@oracle('C05/folds-hashseed')
+def orc_folds_hashseed(case):
+    """the property holds in a new interpreter started with another PYTHONHASHSEED, and the folds -- ordered assignment, or
+    shuffled under a fixed numpy seed -- are the same there as in this process"""
+    import json
+    import os
+    import subprocess
+    import sys
+    import tempfile
+    cases = case['cases']
+    procs = []
+    for hs in case['hashseeds']:      # the new interpreters start (and import the library) while this process evaluates the cases
+        env = dict(os.environ, PYTHONHASHSEED=str(hs))
+        fin, fout, ferr = (tempfile.TemporaryFile('w+') for _ in range(3))     # files, not pipes: nothing can block
+        fin.write(json.dumps(cases))
+        fin.seek(0)
+        p = subprocess.Popen([sys.executable, '-c', _HASHSEED_SCRIPT], stdin=fin, stdout=fout, stderr=ferr, text=True, env=env,
+                             cwd=os.path.dirname(os.path.dirname(os.path.abspath(__file__))))
+        procs.append((hs, p, fin, fout, ferr))
+    here, bad = [], None
+    for c in cases:
+        msg, summ = _folds_eval(c)
+        if msg:
+            bad = f'in this process, case {c}: {msg}'
+            break
+        here.append(summ)
+    outs = []
+    for hs, p, fin, fout, ferr in procs:
+        try:
+            p.wait(timeout=300)
+        except subprocess.TimeoutExpired:
+            p.kill()
+            p.wait()
+        fout.seek(0)
+        ferr.seek(0)
+        outs.append((hs, p.returncode, fout.read(), ferr.read()))
+        for fh in (fin, fout, ferr):
+            fh.close()
+    if bad:
+        return bad
+    for hs, rc, out, err in outs:
+        if rc != 0 or '@@RESULT@@' not in out:
+            return f'interpreter with PYTHONHASHSEED={hs} failed (rc={rc}): {err.strip()[-400:]}'
+        there = json.loads(out.split('@@RESULT@@', 1)[1])
+        for c, h, (msg, t) in zip(cases, here, there):
+            if msg:
+                return f'PYTHONHASHSEED={hs}, case {c}: {msg}'
+            d = _first_diff(json.loads(json.dumps(h)), t)
+            if d:
+                return (f"PYTHONHASHSEED={hs}, {c['gen']} (random={c.get('random')}, rg={c['rg']}, pg={c['pg']}): folds differ from "
+                        f"those of this process (PYTHONHASHSEED={os.environ.get('PYTHONHASHSEED', 'unset')}): {d}")
+    return None
+
+
 def _groupings(n):
     """identity grouping and groupings with repeated values (bootstrap copies / larger groups)"""
     out = [list(range(n))]
@@ -446,10 +657,65 @@ def _groupings(n):
     return out
 
 
+def _interleaved(n, g):
+    """n labels from g groups (g <= n), interleaved: first-appearance order differs from the sorted order"""
+    import math
+    m = next(m for m in (7, 5, 3, 11, 13) if math.gcd(m, g) == 1)
+    return [(i * m + 1) % g for i in range(n)]
+
+
+_STR_LABELS = ['k10', 'k2', 'K1', 'z', 'a', 'k1', 'b', 'm', 'k3', 'k20', 'c', 'd', 'B', 'k02', 'y', 'x']
+
+
+def _label_variants(n):
+    """(tag, grouping) -- label types and orders the quick groupings do not have.  Every grouping is a JSON-able list"""
+    ident = list(range(n))
+    out = [('descending-labels', ident[::-1]),
+           ('str-labels', [_STR_LABELS[i] for i in ident]),
+           ('float-labels', [i + 0.5 for i in ident]),
+           ('negative-labels', [3 - 2 * i for i in ident])]
+    if n >= 4:
+        unb = [0] * (n - 2) + [1, 2]                                         # one large group, two singletons
+        out.append(('unbalanced-groups', unb[1:] + unb[:1]))                 # ... first appearance 0,1,2 but interleaved
+        out.append(('str-labels', [_STR_LABELS[g] for g in _interleaved(n, n - 1)]))   # repeated, interleaved str labels
+        out.append(('negative-labels', [5 - 3 * g for g in _interleaved(n, n - 1)]))
+    return out
+
+
+def _all_gens(base, reg, rnd_seeds, k_fold_all_seeds=False, randoms=True):
+    """every generator with every admissible k on the design `base`; reg(case, gen) registers one case"""
+    nrg, npg = len(set(base['rg'])), len(set(base['pg']))
+    reg(base, 'leave_one_out_pattern')
+    reg(base, 'leave_one_out_rdm')
+    for rnd, seed in rnd_seeds:
+        for k in range(1, npg + 1):
+            reg(dict(base, k=k, random=rnd, seed=seed), 'k_fold_pattern')
+        for k in range(2, nrg + 1):
+            reg(dict(base, k=k, random=rnd, seed=seed), 'k_fold_rdm')
+        for k in range(1, npg // 2 + 1):
+            reg(dict(base, k=k, random=rnd, seed=seed), 'of_k_pattern')
+        for k in range(1, nrg // 2 + 1):
+            if int(nrg / k) >= 2:
+                reg(dict(base, k=k, random=rnd, seed=seed), 'of_k_rdm')
+        if k_fold_all_seeds or rnd is False or seed == 0:
+            for kr in range(1, nrg + 1):
+                for kp in range(1, npg + 1):
+                    reg(dict(base, k=kp, k_rdm=kr, random=rnd, seed=seed), 'k_fold')
+    if randoms:
+        for nr in range(0, nrg):
+            for npat in range(0, npg):
+                reg(dict(base, k=npat, k_rdm=nr, n_cv=2, seed=1), 'random')
+
+
 def tier_c_folds(run, thorough):
     bd = Bounded(run, 'C05/folds', 'C05/fold-generators/oracle/partition-and-contents',
                  'all generators; n_rdm 2..%d, n_cond 3..%d; identity / repeated-value groupings; every admissible k; '
-                 'ordered and %d shuffle seeds (+ 4 larger designs with remainders >= 2: 5/3, 8/3, 7/4, 8/5 groups per k); list descriptors, and numpy-array descriptors for half of the shapes' % ((6, 8, 6) if thorough else (4, 6, 2)), exhaustive=False,
+                 'ordered and %d shuffle seeds (+ 4 larger designs with remainders >= 2: 5/3, 8/3, 7/4, 8/5 groups per k); list descriptors, and numpy-array descriptors for half of the shapes' % ((6, 8, 6) if thorough else (4, 6, 2))
+                 + '; SWEEPS on %s designs: str / float / negative / descending / interleaved / unbalanced group labels, tuple descriptors, '
+                   'default (index) descriptors, default k (None), int16 / int32 / float32 dissimilarities, units x1e-20 / x1e+10, NaN entries, '
+                   'call sequences (other content of the same shape in between, repeated call), single-RDM and single-RDM-group and '
+                   '2-condition designs, %d larger designs (up to %s groups, remainders up to %d)'
+                 % (('5', 8, '24 x 23', 5) if thorough else ('2', 3, '14 x 14', 4)), exhaustive=False,
                  function='sets_*')
     R = range(2, 7 if thorough else 5)
     Cn = range(3, 9 if thorough else 7)
@@ -464,27 +730,8 @@ def tier_c_folds(run, thorough):
         for n_cond in Cn:
             for rg in _groupings(n_rdm):
                 for pg in _groupings(n_cond):
-                    nrg, npg = len(set(rg)), len(set(pg))
                     base = dict(n_rdm=n_rdm, n_cond=n_cond, rg=rg, pg=pg)
-                    chk(base, 'leave_one_out_pattern')
-                    chk(base, 'leave_one_out_rdm')
-                    for rnd, seed in [(False, 0)] + [(True, s) for s in seeds]:
-                        for k in range(1, npg + 1):
-                            chk(dict(base, k=k, random=rnd, seed=seed), 'k_fold_pattern')
-                        for k in range(2, nrg + 1):
-                            chk(dict(base, k=k, random=rnd, seed=seed), 'k_fold_rdm')
-                        for k in range(1, npg // 2 + 1):
-                            chk(dict(base, k=k, random=rnd, seed=seed), 'of_k_pattern')
-                        for k in range(1, nrg // 2 + 1):
-                            if int(nrg / k) >= 2:
-                                chk(dict(base, k=k, random=rnd, seed=seed), 'of_k_rdm')
-                        if rnd is False or seed == 0:
-                            for kr in range(1, nrg + 1):
-                                for kp in range(1, npg + 1):
-                                    chk(dict(base, k=kp, k_rdm=kr, random=rnd, seed=seed), 'k_fold')
-                    for nr in range(0, nrg):
-                        for npat in range(0, npg):
-                            chk(dict(base, k=npat, k_rdm=nr, n_cv=2, seed=1), 'random')
+                    _all_gens(base, chk, [(False, 0)] + [(True, s) for s in seeds])
     # larger remainders (n_groups mod k >= 2): several folds receive a left-over group
     for (n_rdm, n_cond, kr, kp) in ((5, 5, 3, 3), (8, 4, 3, 2), (7, 7, 4, 4), (8, 8, 5, 3)):
         base = dict(n_rdm=n_rdm, n_cond=n_cond, rg=list(range(n_rdm)), pg=list(range(n_cond)))
@@ -492,7 +739,123 @@ def tier_c_folds(run, thorough):
             chk(dict(base, k=kp, k_rdm=kr, random=rnd, seed=seed), 'k_fold')
             chk(dict(base, k=kr, random=rnd, seed=seed), 'k_fold_rdm')
             chk(dict(base, k=kp, random=rnd, seed=seed), 'k_fold_pattern')
+
+    # ------------------------------------------------------------------------------------------------------------
+    # sweeps along dimensions the cases above do not vary (each under its own input class: <generator>,<dimension>)
+    # ------------------------------------------------------------------------------------------------------------
+    def reg_as(tag, **extra):
+        def reg(case, gen):
+            bd.check(orc_folds, dict(case, gen=gen, **extra), gen + ',' + tag, function='sets_' + gen)
+        return reg
+    both = [(False, 0), (True, 0)]
+    shapes = ((4, 5), (5, 4), (5, 6), (6, 5), (3, 7)) if thorough else ((4, 5), (5, 4))
+    # (1) label types and label orders: the same labelling scheme along both factors
+    for (n_rdm, n_cond) in shapes:
+        for (tag, rg), (_t, pg) in zip(_label_variants(n_rdm), _label_variants(n_cond)):
+            _all_gens(dict(n_rdm=n_rdm, n_cond=n_cond, rg=rg, pg=pg), reg_as(tag), both + ([(True, 3)] if thorough else []))
+    # (2) containers, typed data, units, missing entries: a design with groups of copies on both factors
+    for (n_rdm, n_cond) in shapes[:3]:
+        base = dict(n_rdm=n_rdm, n_cond=n_cond, rg=_groupings(n_rdm)[-1], pg=_groupings(n_cond)[-1])
+        for tag, extra in (('tuple-descriptors', dict(container='tuple')),
+                           ('int16-data', dict(dtype='int16')), ('int32-data', dict(dtype='int32', container='array')),
+                           ('float32-data', dict(dtype='float32')),
+                           ('tiny-units', dict(scale=1e-20)), ('huge-units', dict(scale=1e10, container='array')),
+                           ('nan-entries', dict(nan=True))):
+            _all_gens(base, reg_as(tag, **extra), both)
+    # (3) descriptor arguments left at their defaults (grouping by 'index'); default number of folds
+    for (n_rdm, n_cond) in shapes[:3] + ((12, 10),):
+        base = dict(n_rdm=n_rdm, n_cond=n_cond, rg=list(range(n_rdm)), pg=list(range(n_cond)), desc='default')
+        reg = reg_as('default-descriptors')
+        if n_rdm < 12:
+            # sets_of_k_pattern has pattern_descriptor=None as its default: see the pending-triage block below
+            _all_gens(base, lambda case, gen: None if gen == 'of_k_pattern' else reg(case, gen), both)
+        for rnd, seed in both:
+            for desc in ('default', None):
+                b = dict(base, desc=desc, random=rnd, seed=seed)
+                rk = reg_as('default-k' + (',default-descriptors' if desc else ''))
+                rk(dict(b, k=None), 'k_fold_pattern')
+                rk(dict(b, k=None), 'k_fold_rdm')
+                rk(dict(b, k=None, k_rdm=None), 'k_fold')
+                rk(dict(b, k=None, k_rdm=2), 'k_fold')
+                rk(dict(b, k=2, k_rdm=None), 'k_fold')
+                if rnd:
+                    rk(dict(b, k=None, k_rdm=None, n_cv=3), 'random')
+                    rk(dict(b, k=None, k_rdm=0, n_cv=2), 'random')
+                    rk(dict(b, k=0, k_rdm=None, n_cv=2), 'random')
+                if n_rdm >= 10:
+                    rk(dict(b, k=None), 'of_k_rdm')        # default group size (k=5 in the signature)
+                    if not desc:
+                        rk(dict(b, k=None), 'of_k_pattern')
+    if False:  # pending triage: of_k_pattern,default-descriptors
+        # sets_of_k_pattern(rdms, k=2): the default pattern_descriptor=None is passed to add_pattern_index, which no longer
+        # replaces None by 'index' (its docstring says it does) -> KeyError: None for every input
+        reg_as('default-descriptors')(dict(n_rdm=4, n_cond=5, rg=[0, 1, 2, 3], pg=[0, 1, 2, 3, 4], desc='default', k=2,
+                                           random=False, seed=0), 'of_k_pattern')
+    # (4) call sequences: another data set of the same shape in between, then the same call again
+    for (n_rdm, n_cond) in shapes[:3] if thorough else shapes[:1]:
+        for rg, pg, cont, seqs in ((list(range(n_rdm)), list(range(n_cond)), 'array', ('values', 'regroup')[:2 if thorough else 1]),
+                                   (_groupings(n_rdm)[-1], _groupings(n_cond)[-1], 'list', ('regroup', 'values')[:2 if thorough else 1])):
+            for sq in seqs:
+                _all_gens(dict(n_rdm=n_rdm, n_cond=n_cond, rg=rg, pg=pg), reg_as('call-sequence', seq=sq, container=cont),
+                          both + ([(True, 2)] if thorough else []), k_fold_all_seeds=thorough)
+    # (5) single-element dimensions: one RDM; several RDMs in ONE group; two conditions
+    reg = reg_as('single-element-dimension')
+    for n_cond in (2, 3, 5):
+        for n_rdm, rg in ((1, [0]), (3, [7, 7, 7])):
+            for pg in [list(range(n_cond))] + ([[1, 0, 1, 2, 0]] if n_cond == 5 else []):
+                base = dict(n_rdm=n_rdm, n_cond=n_cond, rg=rg, pg=pg)
+                npg = len(set(pg))
+                reg(base, 'leave_one_out_pattern')
+                reg(base, 'leave_one_out_rdm')           # documented: a single group means no cross-validation
+                for rnd, seed in both:
+                    for k in range(1, npg + 1):
+                        reg(dict(base, k=k, random=rnd, seed=seed), 'k_fold_pattern')
+                        reg(dict(base, k=k, k_rdm=1, random=rnd, seed=seed), 'k_fold')
+                    for k in range(1, npg // 2 + 1):
+                        reg(dict(base, k=k, random=rnd, seed=seed), 'of_k_pattern')
+                for npat in range(0, npg):
+                    reg(dict(base, k=npat, k_rdm=0, n_cv=2, seed=1), 'random')
+    for n_rdm in (2, 4):                                  # two conditions, several RDM groups
+        _all_gens(dict(n_rdm=n_rdm, n_cond=2, rg=list(range(n_rdm)), pg=[0, 1]), reg, both)
+    # (6) more groups than above, remainders 2 .. 5, many small folds (remainder >= fold size)
+    big = [(11, 11, 4, 4), (14, 8, 5, 3), (8, 14, 3, 5)]
+    if thorough:
+        big += [(24, 12, 5, 5), (20, 20, 7, 6), (13, 17, 6, 5), (24, 9, 9, 4), (11, 23, 4, 8)]
+    reg = reg_as('larger-design')
+    for (n_rdm, n_cond, kr, kp) in big:
+        base = dict(n_rdm=n_rdm, n_cond=n_cond, rg=list(range(n_rdm)), pg=list(range(n_cond)))
+        grouped = dict(n_rdm=n_rdm, n_cond=n_cond, rg=_interleaved(n_rdm, n_rdm - 3), pg=_interleaved(n_cond, n_cond - 2))
+        for b, krr, kpp in ((base, kr, kp), (grouped, min(kr, 3), min(kp, 3))):
+            for rnd, seed in both:
+                reg(dict(b, k=kpp, k_rdm=krr, random=rnd, seed=seed), 'k_fold')
+                reg(dict(b, k=krr, random=rnd, seed=seed), 'k_fold_rdm')
+                reg(dict(b, k=kpp, random=rnd, seed=seed), 'k_fold_pattern')
+                reg(dict(b, k=2, random=rnd, seed=seed), 'of_k_pattern')
+                reg(dict(b, k=2, random=rnd, seed=seed), 'of_k_rdm')
+            reg(dict(b, k=kpp, k_rdm=krr, n_cv=2, seed=1), 'random')
+        reg(base, 'leave_one_out_rdm')
+        reg(grouped, 'leave_one_out_pattern')
     bd.done()
+
+    # (7) environment: new interpreters with other PYTHONHASHSEED values (hash order of str labels / of sets)
+    hb = Bounded(run, 'C05/folds-hashseed', 'C05/fold-generators/oracle/same-folds-in-a-new-interpreter',
+                 'all generators on 2 designs (str labels with and without repeats, int labels), ordered and shuffled under a '
+                 'fixed numpy seed; %d new interpreter(s) with another PYTHONHASHSEED: property holds there, folds identical'
+                 % (3 if thorough else 1), exhaustive=False, function='sets_*')
+    hcases = []
+    for rg, pg in (([_STR_LABELS[g] for g in _interleaved(5, 4)], [_STR_LABELS[i] for i in range(6)]),
+                   ([(i * 7) % 3 for i in range(5)], list(range(6))[::-1])):
+        def keep(case, gen, nrg=len(set(rg)), npg=len(set(pg))):
+            if gen == 'k_fold' and (case['k_rdm'], case['k']) not in ((2, 3), (3, 2), (nrg, npg), (1, npg - 1)):
+                return
+            if gen == 'random' and (case['k_rdm'], case['k']) not in ((1, 2), (2, 1), (0, 2), (2, 0)):
+                return
+            hcases.append(dict(case, gen=gen))
+        _all_gens(dict(n_rdm=5, n_cond=6, rg=rg, pg=pg), keep, both)
+    hb.check(orc_folds_hashseed, dict(hashseeds=[12345, 1, 999] if thorough else [12345], cases=hcases),
+             'new-interpreter,other-hashseed', function='sets_*')
+    hb.done()
+    bd.failures += hb.failures
     return bd
 
 
@@ -501,39 +864,67 @@ def replay(path):
 
 
 # ---- non-interference of cross-validated evaluation (2-safety, bounded) ----------------------------
+def _ni_models(case, rs, n_pair, pg, n_cond):
+    """the models of a non-interference case, their frozen parameters, and the recording fitter's inner fitter"""
+    from rsatoolbox.rdm import RDMs
+    from rsatoolbox.model import ModelWeighted, ModelSelect, ModelInterpolate
+    n_model = case['n_model']
+    basis = [RDMs(rs.rand(2, n_pair) + 0.1, pattern_descriptors={'pg': list(pg), 'cid': list(range(n_cond))})
+             for _ in range(n_model)]
+    kind = case.get('model', 'weighted')
+    cls = dict(weighted=ModelWeighted, select=ModelSelect, interpolate=ModelInterpolate)[kind]
+    models = [cls(f'm{j}', basis[j]) for j in range(n_model)]
+    frozen = [rs.rand(2) + 0.1 for _ in range(n_model)]
+    if kind == 'select':
+        frozen = [int(fr[0] > 0.6) for fr in frozen]
+    return models, frozen, kind
+
+
 @oracle('C05/noninterference')
 def orc_noninterference(case):
     """fitted parameters of a fold do not depend on test-only data; the fold's score (parameters frozen)
     does not depend on data outside the fold's test RDMs x test conditions"""
     from rsatoolbox.rdm import RDMs, compare
     from rsatoolbox.inference import crossval, sets_k_fold
-    from rsatoolbox.model import ModelWeighted
     rs = np.random.RandomState(case['seed'])
     n_rdm, n_cond, n_model = case['n_rdm'], case['n_cond'], case['n_model']
     n_pair = n_cond * (n_cond - 1) // 2
     rg = case.get('rg') or list(range(n_rdm))
     pg = case.get('pg') or list(range(n_cond))
+    dtype, scale = case.get('dtype'), case.get('scale')
 
     def mk(vec):
-        return RDMs(vec.copy(), rdm_descriptors={'rg': list(rg), 'rid': list(range(n_rdm))},
+        vec = vec.copy()
+        if scale is not None:
+            vec = vec * scale
+        if dtype:
+            vec = vec.astype(dtype)
+        return RDMs(vec, rdm_descriptors={'rg': list(rg), 'rid': list(range(n_rdm))},
                     pattern_descriptors={'pg': list(pg), 'cid': list(range(n_cond))})
     base = rs.rand(n_rdm, n_pair) + 0.1
-    basis = [RDMs(rs.rand(2, n_pair) + 0.1, pattern_descriptors={'pg': list(pg), 'cid': list(range(n_cond))})
-             for _ in range(n_model)]
-    models = [ModelWeighted(f'm{j}', basis[j]) for j in range(n_model)]
+    integer = bool(dtype) and np.dtype(dtype).kind in 'iu'
+    if integer:
+        base = np.floor(base * 40) + 1          # integer-valued measurements 1 .. 45
+
+    def bump():
+        u = rs.rand()
+        return float(1 + int(u * 5)) if integer else 1.0 + u
+    models, frozen, kind = _ni_models(case, rs, n_pair, pg, n_cond)
     method = case['method']
 
     def sets(data):
-        return sets_k_fold(data, k_rdm=case['k_rdm'], k_pattern=case['k_pattern'], random=False,
+        if case.get('random'):
+            np.random.seed(case['seed'] + 11)     # the same shuffle outcome for every data variant
+        return sets_k_fold(data, k_rdm=case['k_rdm'], k_pattern=case['k_pattern'], random=bool(case.get('random')),
                            pattern_descriptor='pg', rdm_descriptor='rg')
     log = []
 
     def rec_fitter(model, data, method='cosine', pattern_idx=None, pattern_descriptor=None, **kw):
         from rsatoolbox.model.fitter import fit_regress
-        th = fit_regress(model, data, method=method, pattern_idx=pattern_idx, pattern_descriptor=pattern_descriptor)
+        inner = fit_regress if kind == 'weighted' else model.default_fitter
+        th = inner(model, data, method=method, pattern_idx=pattern_idx, pattern_descriptor=pattern_descriptor)
         log.append(np.array(th, dtype=float))
         return th
-    frozen = [rs.rand(2) + 0.1 for _ in range(n_model)]
 
     def frozen_fitter(model, data, method='cosine', pattern_idx=None, pattern_descriptor=None, **kw):
         return frozen[int(model.name[1:])]
@@ -558,11 +949,18 @@ def orc_noninterference(case):
     for r in range(n_rdm):
         for k, (a, b) in enumerate(pairs):
             if (r in t_r and r not in r_r) or (a in t_c and a not in r_c) or (b in t_c and b not in r_c):
-                alt[r, k] += 1.0 + rs.rand()
+                alt[r, k] += bump()
                 touched += 1
     if touched:
         log.clear()
-        run_cv(alt, rec_fitter)
+        _, tr1, te1 = run_cv(alt, rec_fitter)
+        if case.get('random'):
+            for nm, s0, s1 in (('training', tr, tr1), ('test', te, te1)):
+                for ff in range(n_fold):
+                    for which, d0, d1 in (('rid', s0[ff][0].rdm_descriptors, s1[ff][0].rdm_descriptors),
+                                          ('cid', s0[ff][0].pattern_descriptors, s1[ff][0].pattern_descriptors)):
+                        if list(d0[which]) != list(d1[which]):
+                            return None     # the shuffle depends on the data values: not a case of this oracle (never on this tree)
         for j in range(n_model):
             a, b = thetas0[f * n_model + j], log[f * n_model + j]
             if not close(a, b, 1e-9):
@@ -574,7 +972,7 @@ def orc_noninterference(case):
     for r in range(n_rdm):
         for k, (a, b) in enumerate(pairs):
             if not (r in t_r and a in t_c and b in t_c):
-                alt2[r, k] += 1.0 + rs.rand()
+                alt2[r, k] += bump()
                 touched2 += 1
     resB, _, _ = run_cv(alt2, frozen_fitter)
     ea, eb = resA.evaluations[0, :, f], resB.evaluations[0, :, f]
@@ -589,10 +987,110 @@ def orc_noninterference(case):
     return None
 
 
+@oracle('C05/noninterference-boot')
+def orc_noninterference_boot(case):
+    """bootstrap-wrapped cross-validation (bootstrap copies of RDMs / conditions; fold ids expanded to their multiplicities):
+    the parameters of a fit do not change when dissimilarities involving an RDM or a condition that is NOT part of that
+    fit's training data are altered; with frozen parameters a fold's score does not change when training-only data are altered.
+    The folds are internal to bootstrap_crossval: training sets are observed through the fitter (labels rid / cid of the data it
+    is handed).  The first clause therefore sees mis-attributed contents / labels of the samples and training sets, NOT copies of a
+    test condition that were put on the training side (that clause is checked on the generators by C05/folds with repeated labels);
+    the second clause sees scores computed on anything but the fold's own test data (other folds, training data, whole sample)."""
+    import contextlib
+    import io
+    from rsatoolbox.rdm import RDMs
+    from rsatoolbox.inference import bootstrap_crossval
+    rs = np.random.RandomState(case['seed'])
+    n_rdm, n_cond, n_model = case['n_rdm'], case['n_cond'], case['n_model']
+    n_pair = n_cond * (n_cond - 1) // 2
+    rg = case.get('rg') or list(range(n_rdm))
+    pg = case.get('pg') or list(range(n_cond))
+    k_rdm, k_pattern, n_cv, n_boot = case['k_rdm'], case['k_pattern'], case.get('n_cv', 2), case.get('N', 2)
+    base = rs.rand(n_rdm, n_pair) + 0.1
+    models, frozen, kind = _ni_models(case, rs, n_pair, pg, n_cond)
+    method = case['method']
+    pairs = [(a, b) for a in range(n_cond) for b in range(a + 1, n_cond)]
+    log = []
+
+    def rec_fitter(model, data, method='cosine', pattern_idx=None, pattern_descriptor=None, **kw):
+        from rsatoolbox.model.fitter import fit_regress
+        inner = fit_regress if kind == 'weighted' else model.default_fitter
+        th = inner(model, data, method=method, pattern_idx=pattern_idx, pattern_descriptor=pattern_descriptor)
+        log.append((np.array(th, dtype=float), sorted(set(int(x) for x in data.rdm_descriptors['rid'])),
+                    sorted(set(int(x) for x in data.pattern_descriptors['cid']))))
+        return th
+
+    def frozen_fitter(model, data, method='cosine', pattern_idx=None, pattern_descriptor=None, **kw):
+        log.append((None, sorted(set(int(x) for x in data.rdm_descriptors['rid'])),
+                    sorted(set(int(x) for x in data.pattern_descriptors['cid']))))
+        return frozen[int(model.name[1:])]
+
+    def run_bcv(vec, fitter):
+        data = RDMs(vec.copy(), rdm_descriptors={'rg': list(rg), 'rid': list(range(n_rdm))},
+                    pattern_descriptors={'pg': list(pg), 'cid': list(range(n_cond))})
+        np.random.seed(case['seed'] + 5)          # the same bootstrap samples and the same shuffles for every data variant
+        log.clear()
+        with contextlib.redirect_stderr(io.StringIO()):
+            res = bootstrap_crossval(models, data, method=method, fitter=fitter, k_pattern=k_pattern, k_rdm=k_rdm, N=n_boot,
+                                     n_cv=n_cv, pattern_descriptor='pg', rdm_descriptor='rg', boot_type=case.get('boot_type', 'both'),
+                                     use_correction=False)
+        return res, list(log)
+    res0, log0 = run_bcv(base, rec_fitter)
+    if not log0:
+        return None          # no bootstrap sample allowed the requested cross-validation: nothing was fitted
+    i = case['fit'] % len(log0)
+    th0, tr_r, tr_c = log0[i]
+    tr_r, tr_c = set(tr_r), set(tr_c)
+    alt = base.copy()
+    touched = 0
+    for r in range(n_rdm):
+        for k, (a, b) in enumerate(pairs):
+            if r not in tr_r or a not in tr_c or b not in tr_c:
+                alt[r, k] += 1.0 + rs.rand()
+                touched += 1
+    if touched:
+        _, log1 = run_bcv(alt, rec_fitter)
+        if len(log1) != len(log0) or any(x[1:] != y[1:] for x, y in zip(log0, log1)):
+            return (f'the training sets handed to the fitters changed when only data outside the training set of fit {i} were '
+                    f'altered (same numpy seed): {len(log0)} vs {len(log1)} fits')
+        if not close(th0, log1[i][0], 1e-9):
+            return (f'fit {i} (training RDMs {sorted(tr_r)}, training conditions {sorted(tr_c)}): fitted parameters changed from '
+                    f'{th0.tolist()} to {log1[i][0].tolist()} when only dissimilarities of other RDMs / conditions ({touched} entries) '
+                    f'were altered')
+    # score side: all fits of a complete run are ordered sample > repetition > fold > model
+    n_fold = k_rdm * k_pattern
+    resA, logA = run_bcv(base, frozen_fitter)
+    ok = [s for s in range(n_boot) if not np.isnan(resA.evaluations[s]).any()]
+    if len(logA) != len(ok) * n_cv * n_fold * n_model or not ok:
+        return None          # some fold was skipped (fewer than 3 conditions on one side): the call order gives no fold index
+    i = (case['fit'] % len(logA)) // n_model * n_model
+    s, rep, f = ok[i // (n_cv * n_fold * n_model)], (i // (n_fold * n_model)) % n_cv, (i // n_model) % n_fold
+    _, tr_r, tr_c = logA[i]
+    tr_r, tr_c = set(tr_r), set(tr_c)
+    alt2 = base.copy()
+    touched2 = 0
+    for r in range(n_rdm):
+        for k, (a, b) in enumerate(pairs):
+            if (k_rdm > 1 and r in tr_r) or (k_pattern > 1 and a in tr_c and b in tr_c):
+                alt2[r, k] += 1.0 + rs.rand()
+                touched2 += 1
+    resB, logB = run_bcv(alt2, frozen_fitter)
+    if [x[1:] for x in logA] != [x[1:] for x in logB]:
+        return 'the training sets handed to the fitters changed when only training data of one fold were altered (same numpy seed)'
+    ea, eb = resA.evaluations[s, :, f, rep], resB.evaluations[s, :, f, rep]
+    if touched2 and not close(ea, eb, 1e-9):
+        return (f'bootstrap sample {s}, repetition {rep}, fold {f} (training RDMs {sorted(tr_r)}, training conditions {sorted(tr_c)}): '
+                f'scores changed from {ea.tolist()} to {eb.tolist()} with frozen parameters when only training-only data '
+                f'({touched2} entries) were altered')
+    return None
+
+
 def tier_c_noninterference(run, thorough):
     bd = Bounded(run, 'C05/noninterference', 'C05/crossval/oracle/noninterference',
                  'crossval with 1..3 weighted models (2 basis RDMs each), recording / frozen fitters; n_rdm 4..5, n_cond 8..9, '
-                 'k_rdm, k_pattern in {1,2}, methods cosine/corr; perturbation of test-only resp. non-test entries; every fold',
+                 'k_rdm, k_pattern in {1,2}, methods cosine/corr; perturbation of test-only resp. non-test entries; every fold'
+                 '; SWEEPS: RDM / condition groups with copies (interleaved labels), k up to 3, shuffled folds, float32 / integer data, '
+                 'units x1e-20 / x1e+10, select / interpolate models with their default fitters (also spearman, tau-a)',
                  function='crossval')
     seeds = range(3 if thorough else 1)
     for seed in seeds:
@@ -605,5 +1103,59 @@ def tier_c_noninterference(run, thorough):
                                 bd.check(orc_noninterference, dict(seed=seed, n_model=n_model, n_rdm=n_rdm, n_cond=n_cond,
                                                                    k_rdm=k_rdm, k_pattern=k_pattern, method=method, fold=fold),
                                          f'models={n_model}' if n_model > 1 else 'single-model')
+    # ---- sweeps: dimensions not varied above (own input classes) ----
+    # groups with copies, interleaved, unsorted first appearance (crossval skips folds with fewer than 3 conditions on a side:
+    # 6 condition groups of 2 copies keep every fold of k_pattern <= 3 above that)
+    rg6, pg12 = [2, 0, 1, 0, 2, 3], [3, 0, 1, 0, 2, 3, 5, 4, 2, 1, 4, 5]
+    variants = [('grouped-copies', dict(n_rdm=6, n_cond=12, rg=rg6, pg=pg12)),
+                ('grouped-copies,shuffled-folds', dict(n_rdm=6, n_cond=12, rg=rg6, pg=pg12, random=True)),
+                ('shuffled-folds', dict(n_rdm=5, n_cond=9, random=True)),
+                ('float32-data', dict(n_rdm=4, n_cond=8, dtype='float32')),
+                ('integer-data', dict(n_rdm=4, n_cond=8, dtype='int32')),
+                ('tiny-units', dict(n_rdm=4, n_cond=8, scale=1e-20)),
+                ('huge-units', dict(n_rdm=4, n_cond=8, scale=1e10, random=True)),
+                ('select-model', dict(n_rdm=4, n_cond=8, model='select')),
+                ('interpolate-model', dict(n_rdm=4, n_cond=8, model='interpolate'))]
+    for seed in range(2 if thorough else 1):
+        for tag, extra in variants:
+            kind = extra.get('model', 'weighted')
+            methods = ('cosine', 'corr') if kind == 'weighted' else ('cosine', 'spearman', 'tau-a')
+            if thorough:
+                ks = ((2, 2), (1, 3), (3, 1), (2, 3))
+            elif 'grouped' in tag:
+                ks = ((2, 2), (1, 3), (3, 1))
+            else:
+                ks = ((2, 2), (1, 2)) if tag in ('shuffled-folds', 'select-model') else ((2, 2),)
+            for (k_rdm, k_pattern) in ks:
+                full = thorough or (k_rdm, k_pattern) == (2, 2)
+                for method in methods if full and (thorough or kind != 'interpolate') else methods[:1]:
+                    for n_model in (1, 2) if full and (thorough or kind == 'weighted') else (2,):
+                        for fold in range(k_rdm * k_pattern):
+                            bd.check(orc_noninterference, dict(extra, seed=seed + 20, n_model=n_model, k_rdm=k_rdm, k_pattern=k_pattern,
+                                                               method=method, fold=fold), tag)
     bd.done()
+
+    bb = Bounded(run, 'C05/noninterference-boot', 'C05/bootstrap-crossval/oracle/noninterference',
+                 'bootstrap_crossval (N=2 samples, n_cv=2) with 1..2 weighted / select models, recording / frozen fitters; n_rdm 6, '
+                 'n_cond 12..14, plain and grouped descriptors, boot_type both / pattern / rdm, k_rdm in {1,2}, k_pattern in {1,2}; '
+                 'perturbation of the entries outside a fit\'s training data resp. of training-only entries; %s' %
+                 ('every 3rd fit, 3 seeds' if thorough else '1-2 fits per configuration, reduced grid'), function='bootstrap_crossval')
+    for seed in range(3 if thorough else 1):
+        for tag, extra in (('plain', dict(n_rdm=6, n_cond=12)),
+                           ('grouped', dict(n_rdm=6, n_cond=14, rg=[1, 0, 2, 3, 0, 4], pg=[5, 0, 1, 2, 3, 4, 5, 6, 7, 8, 9, 0, 10, 11]))):
+            for boot_type in ('both', 'pattern', 'rdm'):
+                if not thorough and tag == 'plain' and boot_type != 'both':
+                    continue
+                for (k_rdm, k_pattern) in ((2, 2), (1, 2), (2, 1)):
+                    for kind, method, n_model in (('weighted', 'cosine', 2), ('weighted', 'corr', 1), ('select', 'spearman', 2)):
+                        if not thorough and ((kind, method) != ('weighted', 'cosine') and (tag, boot_type, k_rdm, k_pattern) != ('grouped', 'both', 2, 2)
+                                             or boot_type != 'both' and (k_rdm, k_pattern) != (2, 2)):
+                            continue
+                        n_fit = 2 * 2 * k_rdm * k_pattern * n_model
+                        for fit in (range(0, n_fit, 3) if thorough else ((1, n_fit - 2) if (k_rdm, k_pattern) == (2, 2) else (n_fit // 2,))):
+                            bb.check(orc_noninterference_boot,
+                                     dict(extra, seed=seed + 40, n_model=n_model, model=kind, k_rdm=k_rdm, k_pattern=k_pattern,
+                                          method=method, boot_type=boot_type, fit=fit), f'boot-{boot_type},{tag}')
+    bb.done()
+    bd.failures += bb.failures
     return bd
